@@ -9,6 +9,7 @@ import ProfiVerif.Driver.Prm
 import ProfiVerif.Driver.Station
 import ProfiVerif.Driver.StationOracle
 import ProfiVerif.Driver.Net
+import ProfiVerif.Driver.NetOracle
 open PV PV.Driver
 
 /-
@@ -29,6 +30,11 @@ def main (args : List String) : IO UInt32 := do
   | ["oracle", "C12st", o, i] => oracleLoop (oracleStation "C12") {} o i
   | ["oracle", "C13st", o, i] => oracleLoop (oracleStation "C13") {} o i
   | ["oracle", "C15st", o, i] => oracleLoop (oracleStation "C15") {} o i
+  | ["oracle", "C01net", o, i] => oracleLoop (oracleNet "C01") {} o i
+  | ["oracle", "C02net", o, i] => oracleLoop (oracleNet "C02") {} o i
+  | ["oracle", "C05net", o, i] => oracleLoop (oracleNet "C05") {} o i
+  | ["oracle", "C06net", o, i] => oracleLoop (oracleNet "C06") {} o i
+  | ["oracle", "C13net", o, i] => oracleLoop (oracleNet "C13") {} o i
   | ["model", "net"] => engineLoop stepNet none inp out; return 0
   | ["model", "station"] => engineLoop stepStation none inp out; return 0
   | ["model", "prm"] => engineLoop stepPrm none inp out; return 0
